@@ -42,12 +42,12 @@ func zzWFits32(a zzW) bool {
 	return zzAnd(zzWFits64(a), zzAnd(int64(a.lo) >= -1<<31, int64(a.lo) <= 1<<31-1))
 }
 
-// zzSymInt builds a Starlark Int through the real constructors from a symbolic
-// integer with |v| < 2^bitsN (bitsN <= 126). Returns the Int and its exact value.
-func zzSymInt(name string, bitsN int) (Int, zzW) {
-	neg := zzBool(name + "_neg")
-	lo := zzU64(name + "_lo")
-	var hi uint64
+// zzSymIntParts builds a Starlark Int through the real constructors from a symbolic
+// integer with |v| < 2^bitsN (bitsN <= 126). Returns the Int, its sign and magnitude
+// limbs (the raw solver variables) and its exact 128-bit value.
+func zzSymIntParts(name string, bitsN int) (i Int, neg bool, lo, hi uint64, w zzW) {
+	neg = zzBool(name + "_neg")
+	lo = zzU64(name + "_lo")
 	if bitsN > 64 {
 		hi = zzU64(name + "_hi")
 		zzAssume(hi < 1<<uint(bitsN-64))
@@ -56,12 +56,18 @@ func zzSymInt(name string, bitsN int) (Int, zzW) {
 	}
 	mag := zzW{int64(hi), lo}
 	b := new(big.Int).SetBits([]big.Word{big.Word(lo), big.Word(hi)})
-	w := mag
+	w = mag
 	if neg {
 		b.Neg(b)
 		w = zzWNeg(mag)
 	}
-	return MakeBigInt(b), w
+	return MakeBigInt(b), neg, lo, hi, w
+}
+
+// zzSymInt is zzSymIntParts without the parts.
+func zzSymInt(name string, bitsN int) (Int, zzW) {
+	i, _, _, _, w := zzSymIntParts(name, bitsN)
+	return i, w
 }
 
 // zzIntValue extracts the exact value of a Starlark Int of magnitude < 2^127,
